@@ -89,6 +89,13 @@ def enum_units(tier, seed):
                                                    {"k": "call", "n": "m_pick", "args": [L(0)]}, {"k": "label", "n": "lb_later"}, db(L(0xEE))]})
     cases.append({"rom": "low", "files": {}, "ir": [org, {"k": "for", "v": "i_0", "lo": L(0), "hi": L(3), "b": [{"k": "for", "v": "i_1", "lo": L(0), "hi": L(2), "b": [
         {"k": "if", "c": ["id", "k_late"], "t": [db(L(0xA2))], "e": [db(L(0xB2))]}]}, {"k": "if", "c": ["id", "i_0"], "t": [], "e": None}]}, db(L(0xEE))]})
+    # a condition over a qualified name that does not exist (the scope is still open, or has no such member) is false, whatever the
+    # plain name means outside
+    for inner in ([{"k": "if", "c": ["id", "sc_c.k_d"], "t": [db(L(0x11))], "e": [db(L(0x22))]}],
+                  [{"k": "for", "v": "i_0", "lo": L(0), "hi": L(2), "b": [{"k": "if", "c": ["id", "sc_c.k_d"], "t": [db(L(0x11))], "e": [db(L(0x22))]}]}],
+                  [{"k": "block", "b": [{"k": "if", "c": ["bin", "+", ["id", "sc_c.k_d"], L(0)], "t": [db(L(0x11))], "e": [db(L(0x22))]}]}]):
+        cases.append({"rom": "low", "files": {}, "ir": [{"k": "const", "n": "k_d", "e": L(1), "eager": True}, org, {"k": "scope", "n": "sc_c", "b": inner + [db(L(3))]},
+                                                       {"k": "if", "c": ["id", "sc_x.k_d"], "t": [db(L(0x33))], "e": [db(L(0x44))]}, {"k": "if", "c": ["id", "k_d"], "t": [db(L(0x55))], "e": None}, db(L(0xEE))]})
     # condition values
     for c in (L(0), L(1), L(5), ["neg", L(1)], ["id", "k_undefined"], ["bin", "-", L(2), L(2)], ["bin", "&", L(6), L(3)]):
         for has_else in (False, True):
